@@ -35,6 +35,10 @@ def default_dtype(dtype):
         torch.set_default_dtype(old)
 
 
+class BudgetExceeded(BaseException):
+    """the obligation ran out of its time budget (undecided, never a verdict)"""
+
+
 class Refuted(Exception):
     """obligation refuted by the verifier. witness: JSON-able; replay: dict describing how
     to re-run on the real code (module, function, args) or None"""
@@ -79,20 +83,26 @@ def _run_one(i):
         budget = max(10, int(ob.timeout * float(os.environ.get("VERIF_BUDGET_SCALE", "1"))))
 
         def _alarm(sig, frm):
-            raise TimeoutError("obligation budget %ds exceeded" % budget)
+            # a BaseException, re-raised every two seconds until it reaches this function: code under test and harnesses that catch
+            # `Exception` (retry loops, "unsupported combination raises" clauses) must not be able to swallow the end of the budget
+            raise BudgetExceeded("obligation budget %ds exceeded" % budget)
         signal.signal(signal.SIGALRM, _alarm)
-        signal.alarm(budget)
-        r = ob.fn()
-        signal.alarm(0)
+        signal.setitimer(signal.ITIMER_REAL, budget, 2.0)
+        try:
+            r = ob.fn()
+        finally:
+            signal.setitimer(signal.ITIMER_REAL, 0)
         out["status"] = "discharged"
         if isinstance(r, dict):
             out.update(r)
     except Refuted as e:
         out.update(status="refuted", detail=e.detail, witness=e.witness, replay=e.replay, confirmed=e.confirmed)
+    except BudgetExceeded as e:
+        out.update(status="undecided", detail="TimeoutError: %s" % e)
     except Exception as e:  # Undecided, Timeout, bugs
         from .cond import Undecided
         import signal
-        signal.alarm(0)
+        signal.setitimer(signal.ITIMER_REAL, 0)
         if isinstance(e, (Undecided, TimeoutError)):
             out.update(status="undecided", detail="%s: %s" % (type(e).__name__, e))
         else:
